@@ -48,7 +48,11 @@ def shell_block(Q, s):
     if s.type == "cartesian":
         return Dc
     S = r4.cart_overlap_same_shell([tuple(c) for c in s.comps])
-    return s.T @ Dc @ S @ s.T.T
+    D = s.T @ Dc @ S @ s.T.T
+    # entries that vanish exactly (every signed permutation, rotations about an axis) come out of the floating-point product as
+    # ~1e-17: such a "zero" would couple a component to another one that may be 1e5 times larger in the tail of a tight shell.
+    D[np.abs(D) < 1e-15 * np.abs(D).max()] = 0.0
+    return D
 
 
 def basis_matrix(Q, shells):
